@@ -87,7 +87,11 @@ Value& SUBRAWExpression::value(Context & ctx) const
     if (c == 0)
       return val;
     a = (a < 0 ? a + c : a);
-    b = std::max<int64_t>(std::min(b, c - a), 0L);
+    /* beyond the bounds there is nothing to return; c - a cannot overflow within */
+    if (a < 0 || a >= c)
+      b = 0;
+    else
+      b = std::max<int64_t>(std::min(b, c - a), 0L);
     if (a >= 0 && b > 0)
     {
       if (val.lvalue())
